@@ -4,9 +4,9 @@
 //!   symbol tables: every Unicode scalar value (1,112,064) through CardRank::from_char and CardSuit::from_char
 //!   card tokens:   every scalar as FIRST char x each of the 16 suit symbols, every scalar as SECOND char x each of
 //!                  the 19 rank symbols (39 M strings) through CKCNumber::from_index and parse::get_rank_and_suit;
-//!                  all strings of length <= 3 over a 48-char alphabet (all 35 symbols, separators, NUL, multi-byte
-//!                  chars); every two-char head over that alphabet x 6 tails (thorough: length <= 4, and heads over
-//!                  a ~2,000-char alphabet)
+//!                  all strings of length <= 4 over a 48-char alphabet (all 35 symbols, separators, NUL, multi-byte
+//!                  chars); every two-char head over that alphabet x 6 tails (thorough: heads over a ~2,000-char
+//!                  alphabet)
 //!   hand parsers:  all token sequences of length 0..=7 over 7 tokens (cards in four spellings, "XX", the one-char
 //!                  "A", a card with a tail) x 5 separator styles (single, double, tab, newline, U+3000; odd styles
 //!                  also lead and trail) through TryFrom<&str> of Two..Seven, parse::five_from_index and
@@ -281,7 +281,7 @@ pub fn run(ctx: &Ctx, rep: &mut Report) {
     {
         let t0 = Instant::now();
         let al = alphabet48();
-        let maxlen = if thorough { 4 } else { 3 };
+        let maxlen = 4;
         let kind = monitor::kind_id("token");
         let mut acc = Acc::new(2);
         check_token(&mut acc, "");
